@@ -63,6 +63,13 @@ def variants(rng, env, base, wid, classes):
     out.append(("tuple-member", ("tuple", "tuple[{}]", [("leaf", "int"), wrap_chain(rng, inner, wid, False, False)])))
     if inner[0] != "union":
         out.append(("union-member", ("union", "Union", [wrap_chain(rng, inner, wid, False, False), ("none",)])))
+    # a reference (ForwardRef with module / bare string is only resolvable at root) whose TARGET is itself a
+    # wrapper, at a nested position
+    w = wrap_chain(rng, inner, wid, False, False, n=rng.randint(1, 2))
+    if w[0] in ("newtype", "alias"):
+        out.append(("seq-arg-wrapref", ("seq", "KList", "list[{}]", ("wrapref", w, "fwd"))))
+        out.append(("map-value-wrapref", ("map", "KDict", "dict[{}, {}]", ("leaf", "str"), ("wrapref", w, "fwd"))))
+        out.append(("tuple-member-wrapref", ("tuple", "tuple[{}]", [("leaf", "int"), ("wrapref", w, "fwd")])))
     return out
 
 
@@ -71,7 +78,10 @@ def plain_of(tag, base):
             "seq-arg": ("seq", "KList", "list[{}]", base),
             "map-value": ("map", "KDict", "dict[{}, {}]", ("leaf", "str"), base),
             "tuple-member": ("tuple", "tuple[{}]", [("leaf", "int"), base]),
-            "union-member": ("union", "Union", [base, ("none",)])}[tag]
+            "union-member": ("union", "Union", [base, ("none",)]),
+            "seq-arg-wrapref": ("seq", "KList", "list[{}]", base),
+            "map-value-wrapref": ("map", "KDict", "dict[{}, {}]", ("leaf", "str"), base),
+            "tuple-member-wrapref": ("tuple", "tuple[{}]", [("leaf", "int"), base])}[tag]
 
 
 def build_groups(run):
